@@ -44,6 +44,7 @@ func (e *ThreadPoolExecutor) Execute(r Runnable) error {
 	if e.state.Get() != fatchoy.StateRunning {
 		return ErrExecutorNotRunning
 	}
+	e.verifPoint("execute.checked")
 	e.queue <- r // may block
 	return nil
 }
@@ -54,6 +55,7 @@ func (e *ThreadPoolExecutor) Shutdown() {
 	}
 	close(e.done)
 	e.wg.Wait()
+	e.verifPoint("shutdown.joined")
 	close(e.queue)
 	e.state.Set(fatchoy.StateTerminated)
 }
